@@ -1,5 +1,6 @@
 S = "simplify.py"
 D = "derivative.py"
+I = "indices.py"
 WITNESSES = [
     dict(id="c14-f12-revert", prop="C14", file=S, expect="R14d",
          old="        if len(tensors) == 1 and exponent == 1:", new="        if len(tensors) == 1:"),
@@ -31,4 +32,132 @@ WITNESSES = [
          old='            return {("none",): term}', new='            return {}'),
     dict(id="c14-ok-base-alias", prop="C14", file=D, expect=None,
          old="                symmetrized_deriv_contrib.subs(x, obj.base)", new="                symmetrized_deriv_contrib.subs(x, obj.base_and_exponent[0])"),
+
+    # ---- breaking edits for the checks introduced with the evaluation on the tensor-algebra model
+    dict(id="c14-name-guard-removed", prop="C14", file=S, expect="R14e",
+         old='    if not isinstance(t_name, str):\n        raise Inputerror("Tensor name needs to be provided as string.")\n\n    ret = {}  # expr sorted by tensor block',
+         new='    ret = {}  # expr sorted by tensor block'),
+    dict(id="c14-copy-dropped", prop="C14", file=S, expect="R14b",
+         old="            symmetrized_term += term.copy().permute(*perms) * sym_factor", new="            symmetrized_term += term.permute(*perms) * sym_factor"),
+    dict(id="c14-sym-start-alias", prop="C14", file=S, expect=["R14b", "R14a"],
+         old="        symmetrized_term = term.copy()\n", new="        symmetrized_term = term\n"),
+    dict(id="c14-assumptions-dropped", prop="C14", file=S, expect=["R14e", "R14a"],
+         old="        remaining_term = e.Expr(1, **term.assumptions)\n        for obj in term.objects:\n            if obj.name == t_name:\n                tensors.append(obj)  # we",
+         new="        remaining_term = e.Expr(1)\n        for obj in term.objects:\n            if obj.name == t_name:\n                tensors.append(obj)  # we"),
+    dict(id="c14-target-idx-not-extended", prop="C14", file=S, expect="R14c",
+         old="            term.set_target_idx(term.provided_target_idx + indices)", new="            term.set_target_idx(term.provided_target_idx)"),
+    dict(id="c14-deriv-assumptions-dropped", prop="C14", file=D, expect="R14e",
+         old="                derivative[key] = e.Expr(0, **assumptions)", new="                derivative[key] = e.Expr(0)"),
+    dict(id="c14-sym-contracted-only", prop="C14", file=S, expect="R14b",
+         old="        tensor_sym = tensor.symmetry()\n        if is_adc_amplitude", new="        tensor_sym = tensor.symmetry(only_contracted=True)\n        if is_adc_amplitude"),
+    dict(id="c14-used-names-tensor", prop="C14", file=S, expect="R14c",
+         old="        for s in indices:\n            if (idx_key := s.space_and_spin) not in used_indices:\n                used_indices[idx_key] = set()\n            used_indices[idx_key].add(s.name)\n\n        if tensor_target_indices:",
+         new="        if tensor_target_indices:"),
+    dict(id="c14-deriv-sign-lost", prop="C14", file=D, expect=["R14e", "R14b"],
+         old="            if (factor := obj.prefactor) < 0:\n                deriv_contrib *= factor\n", new=""),
+    dict(id="c14-deriv-targets-ignored", prop="C14", file=D, expect="R14e",
+         old="            _, perms = minimize_tensor_indices(obj.idx, target_names_by_space)", new="            _, perms = minimize_tensor_indices(obj.idx, {})"),
+    dict(id="c14-perms-not-applied", prop="C14", file=S, expect=["R14a", "R14b", "R14c"],
+         old="        term: e.Expr = term.permute(*perms)\n", new="        term: e.Expr = term * 1\n"),
+    dict(id="c14-adc-bks-accepted", prop="C14", file=S, expect="R14a",
+         old='                raise ValueError("ADC amplitude vectors should have "\n                                 "no bra ket symmetry.")', new="                pass"),
+    dict(id="c14-others-not-multiplied-back", prop="C14", file=S, expect="R14e",
+         old="        for remaining_t in tensors[1:]:\n            remaining_term *= remaining_t\n", new=""),
+    dict(id="c14-name-prefix-match", prop="C14", file=S, expect="R14e",
+         old="            if obj.name == t_name:\n                tensors.append(obj)  # we", new="            if str(obj.name).startswith(t_name):\n                tensors.append(obj)  # we"),
+    dict(id="c14-accumulate-overwrite", prop="C14", file=S, expect="R14e",
+         old="    for term in expr.terms:\n        for key, contrib in process_term(term, t_name).items():\n            if key not in ret:\n                ret[key] = 0\n            ret[key] += contrib",
+         new="    for term in expr.terms:\n        for key, contrib in process_term(term, t_name).items():\n            ret[key] = contrib"),
+    # the first contribution is stored itself and later updated in place: it is a temporary of the recursion, nobody else sees it
+    dict(id="c14-ok-accumulate-alias-temporary", prop="C14", file=S, expect=None,
+         old="                    key = tuple(sorted(t_block + list(blocks)))\n                    if key not in ret:\n                        ret[key] = 0\n                    ret[key] += contrib",
+         new="                    key = tuple(sorted(t_block + list(blocks)))\n                    if key not in ret:\n                        ret[key] = contrib\n                    else:\n                        ret[key] += contrib"),
+    dict(id="c14-min-reverse-lost", prop="C14", file=I, expect="R08g",
+         old="            min_symbols.reverse()\n            minimal_indices[idx_key] = min_symbols", new="            minimal_indices[idx_key] = min_symbols"),
+    dict(id="c14-lowest-off-by-one", prop="C14", file=I, expect="R08g",
+         old="    return [s for s in idx if s not in used][:n]", new="    return [s for s in idx if s not in used][1:n + 1]"),
+    dict(id="c14-deriv-wrong-symmetry-source", prop="C14", file=D, expect="R14b",
+         old="            tensor_sym = obj.symmetry()\n            deriv_contrib *=", new="            tensor_sym = deriv_contrib.terms[0].symmetry()\n            deriv_contrib *="),
+
+    # ---- behaviour-preserving refactorings of kinds that are not in refactors/
+    # scalar factors collected first and applied once (reassociation of a product)
+    dict(id="c14-ok-prefactor-collected", prop="C14", file=S, expect=None, edits=[
+        ("        term *= tensor.prefactor\n", "        scale = tensor.prefactor\n"),
+        ("        if bra_ket_sym is not None and bra_ket_sym is not S.Zero:\n            term *= Rational(1, 2)",
+         "        if bra_ket_sym is not None and bra_ket_sym is not S.Zero:\n            scale *= Rational(1, 2)"),
+        ("            term *= 1 / sqrt(len(tensor_sym) + 1)\n", "            scale *= 1 / sqrt(len(tensor_sym) + 1)\n        term *= scale\n"),
+    ]),
+    # algebraic identity 1/sqrt(n) = sqrt(1/n), division instead of multiplication by the inverse
+    dict(id="c14-ok-sqrt-of-inverse", prop="C14", file=S, expect=None,
+         old="            term *= 1 / sqrt(len(tensor_sym) + 1)", new="            term *= sqrt(Rational(1, len(tensor_sym) + 1))"),
+    dict(id="c14-ok-divide-by-sqrt", prop="C14", file=S, expect=None,
+         old="            term *= 1 / sqrt(len(tensor_sym) + 1)", new="            term /= sqrt(1 + len(tensor_sym))"),
+    # iteration over the keys of the symmetry dict with a lookup instead of .items()
+    dict(id="c14-ok-dict-key-iteration", prop="C14", file=S, expect=None,
+         old="        for perms, sym_factor in tensor_sym.items():\n            symmetrized_term += term.copy().permute(*perms) * sym_factor",
+         new="        for operation in tensor_sym:\n            character = tensor_sym[operation]\n            permuted = term.copy()\n            permuted.permute(*operation)\n            symmetrized_term += character * permuted"),
+    # Counter replaced by explicit counting on the list
+    dict(id="c14-ok-count-without-counter", prop="C14", file=S, expect=None,
+         old="        for s, n in Counter(indices).items():\n            if n > 1:",
+         new="        counted = []\n        for s in indices:\n            if s in counted:\n                continue\n            counted.append(s)\n            n = indices.count(s)\n            if n > 1:"),
+    # augmented assignment replaced by a binary operator and rebinding
+    dict(id="c14-ok-rebinding-product", prop="C14", file=S, expect=None, edits=[
+        ("                for s, new_s in sub.items():\n                    term *= KroneckerDelta(s, new_s)",
+         "                for s, new_s in sub.items():\n                    term = term * KroneckerDelta(s, new_s)"),
+        ("                for s, new_s in zip(idx_list, additional_indices):\n                    term *= KroneckerDelta(s, new_s)",
+         "                for s, new_s in zip(idx_list, additional_indices):\n                    term = KroneckerDelta(s, new_s) * term"),
+    ]),
+    # membership test replaced by try/except KeyError
+    dict(id="c14-ok-try-except-accumulate", prop="C14", file=S, expect=None,
+         old="    for term in expr.terms:\n        for key, contrib in process_term(term, t_name).items():\n            if key not in ret:\n                ret[key] = 0\n            ret[key] += contrib",
+         new="    for term in expr.terms:\n        for key, contrib in process_term(term, t_name).items():\n            try:\n                ret[key] += contrib\n            except KeyError:\n                ret[key] = 0 + contrib"),
+    # in-place update of the index list instead of rebuilding it
+    dict(id="c14-ok-inplace-index-replacement", prop="C14", file=S, expect=None,
+         old="                indices = [sub.get(s, s) for s in indices]",
+         new="                for position, old_s in enumerate(indices):\n                    if old_s in sub:\n                        indices[position] = sub[old_s]"),
+    # loop fusion: target detection and collection of used names in one pass over the tensor indices
+    dict(id="c14-ok-loop-fusion", prop="C14", file=S, expect=None, edits=[
+        ("        for s in indices:\n            idx_key = s.space_and_spin\n            if s.name in target_indices.get(idx_key, []):",
+         "        for s in indices:\n            idx_key = s.space_and_spin\n            used_indices.setdefault(idx_key, set()).add(s.name)\n            if s.name in target_indices.get(idx_key, []):"),
+        ("        for s in indices:\n            if (idx_key := s.space_and_spin) not in used_indices:\n                used_indices[idx_key] = set()\n            used_indices[idx_key].add(s.name)\n\n        if tensor_target_indices:",
+         "        if tensor_target_indices:"),
+    ]),
+    # both branches of the rebuild merged: one split point, groups swapped for amplitudes
+    dict(id="c14-ok-merged-rebuild-branches", prop="C14", file=S, expect=None,
+         old="            if isinstance(raw_tensor, Amplitude):  # indices = lower, upper\n                n_l = len(raw_tensor.lower)\n                upper, lower = indices[n_l:], indices[:n_l]\n            else:  # symtensor / antisymtensor, indices = upper, lower\n                n_u = len(raw_tensor.upper)\n                upper, lower = indices[:n_u], indices[n_u:]",
+         new="            lower_first = isinstance(raw_tensor, Amplitude)\n            split = len(raw_tensor.lower if lower_first else raw_tensor.upper)\n            groups = (indices[:split], indices[split:])\n            upper, lower = groups[::-1] if lower_first else groups"),
+    # negative slice bounds: wrong for an amplitude without upper indices (IP-ADC 1h vector): indices[-0:] is everything
+    dict(id="c14-negative-slices-1h", prop="C14", file=S, expect="R14a",
+         old="                n_l = len(raw_tensor.lower)\n                upper, lower = indices[n_l:], indices[:n_l]",
+         new="                n_up = len(raw_tensor.upper)\n                upper, lower = indices[-n_up:], indices[:-n_up]"),
+    # for loop over enumerate turned into a while loop with an explicit counter
+    dict(id="c14-ok-while-loop", prop="C14", file=D, expect=None, edits=[
+        ("        for i, obj in enumerate(tensor_obj):\n            # - extract the exponent of the tensor\n            exponent = obj.exponent",
+         "        i = -1\n        while i + 1 < len(tensor_obj):\n            i += 1\n            obj = tensor_obj[i]\n            # - extract the exponent of the tensor\n            exponent = obj.exponent"),
+    ]),
+    # product rule by slicing the occurrence list instead of comparing positions
+    dict(id="c14-ok-product-rule-slices", prop="C14", file=D, expect=None,
+         old="            for other_i, other_obj in enumerate(tensor_obj):\n                if i != other_i:\n                    deriv_contrib *= other_obj",
+         new="            for other_obj in tensor_obj[:i] + tensor_obj[i + 1:]:\n                deriv_contrib *= other_obj"),
+    # normalisation applied to the symmetrised sum instead of the contribution (distributivity), as a division
+    dict(id="c14-ok-normalise-after-sum", prop="C14", file=D, expect=None, edits=[
+        ("            deriv_contrib *= Rational(1, len(tensor_sym) + 1)\n", ""),
+        ("            symmetrized_deriv_contrib = diff(symmetrized_deriv_contrib, x)",
+         "            symmetrized_deriv_contrib = diff(symmetrized_deriv_contrib, x) / (len(tensor_sym) + 1)"),
+    ]),
+    # differentiation before the symmetrisation (linearity of diff)
+    dict(id="c14-ok-diff-termwise", prop="C14", file=D, expect=None, edits=[
+        ("            symmetrized_deriv_contrib = deriv_contrib.sympy * x**exponent\n",
+         "            symmetrized_deriv_contrib = diff(deriv_contrib.sympy * x**exponent, x)\n"),
+        ("                    deriv_contrib.copy().permute(*perms).sympy *\n                    factor * x**exponent\n                )",
+         "                    deriv_contrib.copy().permute(*perms).sympy *\n                    factor * diff(x**exponent, x)\n                )"),
+        ("            symmetrized_deriv_contrib = diff(symmetrized_deriv_contrib, x)\n", ""),
+    ]),
+    # recursion of process_term also for the single occurrence via a helper that merges dicts
+    dict(id="c14-ok-merge-helper", prop="C14", file=S, expect=None, edits=[
+        ("    def process_term(term: e.Term, t_name):",
+         "    def merge_into(collected: dict, key, contrib):\n        if key in collected:\n            collected[key] += contrib\n        else:\n            collected[key] = 0 + contrib\n\n    def process_term(term: e.Term, t_name):"),
+        ("                    key = tuple(sorted(t_block + list(blocks)))\n                    if key not in ret:\n                        ret[key] = 0\n                    ret[key] += contrib",
+         "                    merge_into(ret, tuple(sorted(t_block + list(blocks))), contrib)"),
+    ]),
 ]
